@@ -60,7 +60,7 @@ class Contract:
     """sidecar contract of one repository function"""
 
     def __init__(self, target, params=None, returns=None, requires=(), ensures=(), raises=None,
-                 loops=None, locals=None, modifies=(), cut=True, ghosts=None, self_type=None, note="", defs=()):
+                 loops=None, locals=None, modifies=(), cut=True, ghosts=None, self_type=None, note="", defs=(), assigns=None):
         self.target = target                  # 'module:qualname'
         self.params = params or {}            # name -> T (symbolic inputs when verified)
         self.returns = returns                # T of the result at cut call sites
@@ -72,6 +72,7 @@ class Contract:
         self.modifies = list(modifies)        # spec expressions denoting SMT lists / ('field', cname, fname)
         self.cut = cut
         self.ghosts = ghosts or {}
+        self.assigns = assigns or {}          # 'obj.field' -> spec expr: precise field updates performed by the callee (constructors)
         self.defs = list(defs)                # [(name, expr)] definitional axioms of ghost spec functions / proved lemmas
         self.note = note
 
@@ -90,7 +91,7 @@ BUILTIN_CLASSES = {"str", "int", "float", "bool", "list", "tuple", "dict", "set"
                    "reversed", "frozenset", "super", "property"}
 BUILTIN_FUNCS = {"len", "abs", "min", "max", "sum", "any", "all", "isinstance", "round", "hash", "print", "sorted",
                  "hasattr", "getattr", "issubclass", "id", "repr", "iter", "next", "callable", "map", "filter"}
-SPEC_FUNCS = {"implies", "forall", "exists", "old", "iff", "ite", "fresh_ref", "allocated", "is_old", "count_if",
+SPEC_FUNCS = {"is_new", "implies", "forall", "exists", "old", "iff", "ite", "fresh_ref", "allocated", "is_old", "count_if",
               "unfold", "lower", "typeof", "same_type", "result_is_new", "distinct"}
 
 
@@ -105,6 +106,7 @@ class Interp(Ops, Builtins, DynOps):
         self.ext_attrs = {}        # (tag, attr) -> handler(interp, recv, node) -> Val
         self.spec_funcs = {}       # extra spec functions name -> handler(interp, args, node)
         self.ghost_env = {}
+        self.call_alloc = None
         self.verifying = None      # fq of the function whose body is being verified
         self.old_state = None
         self.loop_ordinals = {}
@@ -536,7 +538,14 @@ class Interp(Ops, Builtins, DynOps):
         i = self.unwrap(i, node)
         iz = to_int_z(i)
         nz = n if not isinstance(n, int) else z3.IntVal(n)
-        idx = z3.simplify(z3.If(iz < 0, iz + nz, iz))
+        if z3.is_int_value(iz):
+            idx = z3.simplify(z3.If(iz < 0, iz + nz, iz))
+        elif self.spec or self.ctx.params or not self.ctx.feasible([iz < 0]):
+            # spec indices are mathematical; in code, the negative-index wrap-around is kept only where the path
+            # condition allows a negative value (it would otherwise pollute every quantifier trigger)
+            idx = iz
+        else:
+            idx = z3.simplify(z3.If(iz < 0, iz + nz, iz))
         if not self.spec:
             self.ctx.oblige("safety.index_in_range", z3.And(0 <= idx, idx < nz), node)
             self.ctx.assume(z3.And(0 <= idx, idx < nz))
@@ -1249,9 +1258,20 @@ class Interp(Ops, Builtins, DynOps):
             for nm, tx in spec.invariants:
                 self.ctx.assume(self.truth(self.eval_spec(tx, inv_fr)))
         check_inv(z3.IntVal(0), "entry")
-        names, attrs = self.assigned_names(s.body + [ast.Assign(targets=[s.target], value=ast.Constant(0), lineno=s.lineno)])
+        names, attrs = self.assigned_names(s.body)
+        tnames, _ = self.assigned_names([ast.Assign(targets=[s.target], value=ast.Constant(0), lineno=s.lineno)])
+        for tn in tnames:
+            if tn not in names:
+                # the loop target is rebound on every iteration; after the loop it holds an element nobody may rely on
+                v = fr.vars.get(tn)
+                if v is not None:
+                    try:
+                        fr.vars[tn] = self.fresh_like(v, tn, s)
+                    except EngineError:
+                        del fr.vars[tn]
         which = self.ctx.decide([("iter", []), ("exit", [])], f"loop{k}@{s.lineno}")
         self.havoc_for_loop(fr, names, attrs, spec, s)
+        wmark = len(self.ctx.written)
         if which == 0:
             idx = self.ctx.fresh(ivar, I)
             self.ctx.assume(z3.And(0 <= idx, idx < n))
@@ -1267,12 +1287,27 @@ class Interp(Ops, Builtins, DynOps):
             except _Break:
                 return          # continue after the loop with the state at the break
             check_inv(idx + 1, "preserve")
+            self.loop_frame_check(tag, spec, fr, wmark, s)
             raise PathEnd()
         else:
             assume_inv(n)
             if not self.ctx.feasible([]):
                 raise PathEnd()
             self.exec_block(s.orelse, fr)
+
+    def loop_frame_check(self, tag, spec, fr, wmark, node):
+        """the loop frame assumed at the cut (pre-existing objects and lists unchanged) is an obligation on the body's writes"""
+        ctx = self.ctx
+        allowed = [self.eval_spec(tx, fr).z for tx in spec.modifies]
+        seen = set()
+        for w in ctx.written[wmark:]:
+            ref = w[1] if w[0] == "list" else w[3]
+            k = (w[0], ref.get_id()) + ((w[1], w[2]) if w[0] == "field" else ())
+            if k in seen:
+                continue
+            seen.add(k)
+            what = "list" if w[0] == "list" else f"field.{w[1]}.{w[2]}"
+            ctx.oblige(f"{tag}.frame.{what}_write_only_to_new_objects", z3.Or(z3.Not(ctx.is_old(ref)), *[ref == a for a in allowed]), w[-1], kind="frame")
 
     def havoc_for_loop(self, fr, names, attrs, spec, node):
         """forget everything the loop body may change: assigned locals, assigned fields of concrete objects,
@@ -1315,6 +1350,11 @@ class Interp(Ops, Builtins, DynOps):
         for key in [k for k in ctx.sheap if k[0] == "item"]:
             old = ctx.sheap[key]
             new = ctx.fresh("item", old.sort())
+            ctx.assume(z3.ForAll([r], z3.Implies(notw, z3.Select(new, r) == z3.Select(old, r))))
+            ctx.sheap[key] = new
+        for key in [k for k in ctx.sheap if k[0] == "f"]:
+            old = ctx.sheap[key]
+            new = ctx.fresh("field", old.sort())
             ctx.assume(z3.ForAll([r], z3.Implies(notw, z3.Select(new, r) == z3.Select(old, r))))
             ctx.sheap[key] = new
         # ground instances for the references the path knows
@@ -1413,6 +1453,13 @@ class Interp(Ops, Builtins, DynOps):
         if name == "is_old":
             v = self.ev(e.args[0], fr)
             return VBool(ctx.is_old(v.z))
+        if name == "is_new":
+            # allocated by the function under contract: inside its own verification "did not exist at entry";
+            # at a call site additionally "not allocated when the call was made"
+            v = self.ev(e.args[0], fr)
+            if self.call_alloc is not None:
+                return VBool(z3.And(z3.Not(ctx.is_old(v.z)), z3.Not(z3.Select(self.call_alloc, v.z)), v.z != 0))
+            return VBool(z3.And(z3.Not(ctx.is_old(v.z)), v.z != 0))
         if name == "distinct":
             vs = [self.ev(a, fr) for a in e.args]
             return VBool(z3.Distinct(*[v.z for v in vs]))
@@ -1447,6 +1494,8 @@ class Interp(Ops, Builtins, DynOps):
             ctx.assume(g)
         saved_old = self.old_state
         self.old_state = self.snapshot()
+        saved_call_alloc = self.call_alloc
+        self.call_alloc = ctx.alloc
         try:
             mods = []
             for tx in c.modifies:
@@ -1458,6 +1507,9 @@ class Interp(Ops, Builtins, DynOps):
             if mods:
                 self.ctx.mutating()
                 self.havoc_lists(mods)
+            for target, tx in c.assigns.items():
+                on, fn = target.split(".")
+                self.setattr(cf.vars[on], fn, self.eval_spec(tx, cf), node)
             # exceptional exits allowed by the contract become branches of the caller
             for exc, tx in c.raises.items():
                 cond = self.truth(self.eval_spec(tx, cf))
@@ -1477,6 +1529,7 @@ class Interp(Ops, Builtins, DynOps):
                 ctx.assume(self.truth(self.eval_spec(tx, cf)))
         finally:
             self.old_state = saved_old
+            self.call_alloc = saved_call_alloc
         return res
 
 
